@@ -121,7 +121,7 @@ fn client_bases(tier: Tier) -> Vec<CCfg> {
     let alpha = cc::A_REPLY_UNOWED | cc::A_ABANDON | cc::A_DRAIN;
     for n in 1..=3usize {
         for mif in 1..=2usize {
-            for (fl, cap) in [(Flavour::Always, 1usize), (Flavour::Coupled, 1)] {
+            for (fl, cap) in [(Flavour::Always, 1usize), (Flavour::Coupled, 1), (Flavour::Indep, 1)] {
                 for silent in 0..=1usize {
                     if silent == 1 && n == 1 {
                         continue;
@@ -167,7 +167,7 @@ fn server_bases(tier: Tier) -> Vec<SCfg> {
     let alpha = sc::S_CANCEL | sc::S_FINISH | sc::S_DRAIN;
     for n in 1..=3usize {
         for limit in [None, Some(1)] {
-            for (fl, cap) in [(Flavour::Always, 1usize), (Flavour::Coupled, 1)] {
+            for (fl, cap) in [(Flavour::Always, 1usize), (Flavour::Coupled, 1), (Flavour::Indep, 1)] {
                 for route in [Route::Requests, Route::Execute] {
                     for pol in [vec![true; n], (0..n).map(|i| i % 2 == 1).collect::<Vec<_>>()] {
                         if tier == Tier::Quick && n == 3 && route == Route::Execute {
